@@ -1,13 +1,29 @@
 import BbRe.Model.BRL
+import BbRe.Spec.ByteLocks
+import BbRe.Lemmas.BRLUnlockAll
 /-!
 # C20 — byte-range locks (lock table part)
 
 Property theorems about `Model/BRL.lean`, the transcription of
-`pkg/filesystem/virtual/byte_range_lock_set.go`.  Helper lemmas live in
-`BbRe/Lemmas/BRL.lean`; this file holds the statements the property rests on.
+`pkg/filesystem/virtual/byte_range_lock_set.go`, against the per-byte
+specification `Spec/ByteLocks.lean` (`abs`, `WF`, `applyReq`, `run`).  Helper
+lemmas live in `BbRe/Lemmas/BRL*.lean`; this file holds the statements the
+property rests on.  All statements are universally quantified (no size bounds).
+
+Precondition used throughout: requests have a non-empty range
+(`l.start < l.stop`).  `ByteRangeLock` is documented as "a lock held on a
+non-empty range of bytes"; the `…_empty_range_counterexample` theorems below
+show that the precondition cannot be dropped.
 -/
 namespace BbRe.Properties.C20
-open BbRe.BRL
+open BbRe.BRL BbRe.Spec.ByteLocks BbRe.Lemmas.BRL
+
+/-- A non-trivial well-formed table used for the non-vacuity examples:
+overlapping shared locks of owners 1 and 2, then exclusive ones. -/
+def exLs : List Lock :=
+  [⟨0, 5, 1, .shared⟩, ⟨3, 8, 2, .shared⟩, ⟨8, 12, 1, .excl⟩, ⟨20, 30, 2, .excl⟩]
+
+/-! ## `Test` -/
 
 /-- `Test` only ever reports a lock that is in the table. -/
 theorem test_mem (ls : List Lock) (l c : Lock) (h : test ls l = some c) : c ∈ ls := by
@@ -21,8 +37,11 @@ theorem test_mem (ls : List Lock) (l c : Lock) (h : test ls l = some c) : c ∈ 
       · simp at h; simp [h]
       · exact List.mem_cons_of_mem _ (ih h)
 
+example : test exLs ⟨4, 10, 3, .shared⟩ = some ⟨8, 12, 1, .excl⟩ := by decide
+
 /-- The lock reported by `Test` really conflicts: other owner, overlapping range,
-and at least one side exclusive. -/
+and at least one side exclusive.  In particular an owner's own locks never
+block it. -/
 theorem test_conflicts (ls : List Lock) (l c : Lock) (h : test ls l = some c) :
     c.owner ≠ l.owner ∧ c.stop > l.start ∧ c.start < l.stop ∧ (c.ty = .excl ∨ l.ty = .excl) := by
   induction ls with
@@ -36,5 +55,279 @@ theorem test_conflicts (ls : List Lock) (l c : Lock) (h : test ls l = some c) :
         simp at h; subst h
         exact ⟨h2.1, h2.2.1, by omega, h2.2.2⟩
       · exact ih h
+
+/-- `Test` is exact w.r.t. the per-byte view: it reports no conflict iff no byte
+of the requested range is held by another owner with an exclusive side.  The
+scan stops at the first entry with `start ≥ l.stop`; this is sound because the
+table is sorted (`WF`).  Hence `LOCKT` denies exactly when `LOCK` would. -/
+theorem test_exact (ls : List Lock) (l : Lock) (hwf : WF ls) (hl : l.start < l.stop) :
+    test ls l = none ↔
+      ¬ ∃ o' b t, o' ≠ l.owner ∧ l.start ≤ b ∧ b < l.stop ∧ abs ls o' b = some t ∧
+        (t = .excl ∨ l.ty = .excl) := by
+  have hwf' := (wf_iff ls).1 hwf
+  rw [test_none_iff hwf.sorted l]
+  constructor
+  · rintro h ⟨o', b, t, ho, hb1, hb2, habs, hx⟩
+    obtain ⟨e, he, hc, ht⟩ := abs_some_mem habs
+    exact h e he (by rw [hc.1]; exact ho) (by omega) (by omega) (by rw [ht]; exact hx)
+  · intro h y hy ho h1 h2 hx
+    apply h
+    have hne := hwf.nonempty y hy
+    refine ⟨y.owner, max y.start l.start, y.ty, ho, by omega, by omega, ?_, hx⟩
+    exact (abs_eq_some_iff hwf'.1 hwf'.2).2 ⟨y, hy, ⟨rfl, by omega, by omega⟩, rfl⟩
+
+example : WF exLs ∧ (2 : Nat) < 7 ∧ test exLs ⟨2, 7, 3, .shared⟩ = none := by decide
+example : WF exLs ∧ (4 : Nat) < 10 ∧ test exLs ⟨4, 10, 3, .shared⟩ ≠ none := by decide
+
+/-- Without `l.start < l.stop`, `test_exact` is false: for an empty range strictly
+inside another owner's exclusive lock, `Test` reports a conflict although no
+byte is requested.  (Conservative, harmless; callers never pass empty ranges
+except `offset = length = 2^64-1`, where `Test` cannot conflict.) -/
+theorem test_exact_empty_range_counterexample :
+    ∃ ls l, WF ls ∧ l.start = l.stop ∧ test ls l ≠ none ∧
+      ¬ ∃ o' b t, o' ≠ l.owner ∧ l.start ≤ b ∧ b < l.stop ∧ abs ls o' b = some t ∧
+        (t = .excl ∨ l.ty = .excl) := by
+  refine ⟨[⟨0, 10, 2, .excl⟩], ⟨5, 5, 1, .shared⟩, by decide, rfl, by decide, ?_⟩
+  rintro ⟨o', b, t, _, h1, h2, _⟩
+  simp only at h1 h2
+  omega
+
+/-! ## `Set` preserves the representation invariant -/
+
+theorem wf_init : WF [] := wf_nil
+
+/-- `WF` (sorted by start; ranges non-empty; no `unlocked` entries; per owner
+pairwise disjoint and same-type entries not even adjacent; different owners
+overlap only if both shared) is preserved by `Set` for unlock requests always,
+and for lock requests whenever `Test` reported no conflict. -/
+theorem wf_preserved (ls : List Lock) (l : Lock) (hwf : WF ls) (hl : l.start < l.stop)
+    (ht : l.ty ≠ .unlocked → test ls l = none) : WF (setList ls l) := by
+  by_cases hty : l.ty = .unlocked
+  · exact wf_setList_unlock hwf hl hty
+  · exact wf_setList_lock hwf hl hty (ht hty)
+
+-- lock request that merges and cuts (owner 1, shared over [4,10): merges with
+-- [0,5), cuts the head of the exclusive [8,12)) although it overlaps owner 2's
+-- shared lock; and an unlock request punching a hole
+example : WF exLs ∧ (4 : Nat) < 10 ∧ test exLs ⟨4, 10, 1, .shared⟩ = none ∧
+    setList exLs ⟨4, 10, 1, .shared⟩ =
+      [⟨0, 10, 1, .shared⟩, ⟨3, 8, 2, .shared⟩, ⟨10, 12, 1, .excl⟩, ⟨20, 30, 2, .excl⟩] := by decide
+example : setList exLs ⟨22, 25, 2, .unlocked⟩ =
+    [⟨0, 5, 1, .shared⟩, ⟨3, 8, 2, .shared⟩, ⟨8, 12, 1, .excl⟩, ⟨20, 22, 2, .excl⟩,
+     ⟨25, 30, 2, .excl⟩] := by decide
+
+/-- The non-empty-range precondition of `wf_preserved` cannot be dropped, even
+for unlock requests: unlocking the empty range `[5,5)` inside `[0,10)` splits
+it into the two *adjacent same-type* entries `[0,5)`, `[5,10)` (per-byte view
+unchanged, but not the merged normal form). -/
+theorem wf_preserved_empty_range_counterexample :
+    ∃ ls l, WF ls ∧ l.ty = .unlocked ∧ l.start = l.stop ∧ ¬ WF (setList ls l) :=
+  ⟨[⟨0, 10, 1, .excl⟩], ⟨5, 5, 1, .unlocked⟩, by decide, rfl, rfl, by decide⟩
+
+/-! ## `Set` refines the per-byte specification -/
+
+/-- Key refinement theorem: the owner's new lock replaces / splits / merges
+exactly its own bytes in the range, and nothing else changes. -/
+theorem set_pointwise (ls : List Lock) (l : Lock) (hwf : WF ls) (hl : l.start < l.stop)
+    (o b : Nat) :
+    abs (setList ls l) o b =
+      if o = l.owner ∧ l.start ≤ b ∧ b < l.stop then
+        (if l.ty = .unlocked then none else some l.ty)
+      else abs ls o b := by
+  by_cases ho : o = l.owner
+  · subst ho
+    rw [setList_abs_own hwf hl b]
+    simp
+  · rw [setList_abs_other ls l ho b]
+    simp [ho]
+
+example : WF exLs ∧ (4 : Nat) < 10 ∧ abs exLs 1 9 = some .excl ∧
+    abs (setList exLs ⟨4, 10, 1, .shared⟩) 1 9 = some .shared ∧
+    abs (setList exLs ⟨4, 10, 1, .shared⟩) 1 10 = some .excl := by decide
+
+/-- Other owners are not affected by `Set` at all — no hypothesis needed. -/
+theorem set_pointwise_other (ls : List Lock) (l : Lock) (o b : Nat) (ho : o ≠ l.owner) :
+    abs (setList ls l) o b = abs ls o b :=
+  setList_abs_other ls l ho b
+
+/-! ## The returned delta -/
+
+/-- The returned delta is the change in the number of entries. -/
+theorem delta (ls : List Lock) (l : Lock) :
+    (set ls l).1 = setList ls l ∧
+    (set ls l).2 = ((setList ls l).length : Int) - (ls.length : Int) := ⟨rfl, rfl⟩
+
+/-- `Set` leaves the entries of all other owners untouched, in the same order. -/
+theorem entries_other_owner_unchanged (ls : List Lock) (l : Lock) :
+    (setList ls l).filter (fun e => e.owner ≠ l.owner) =
+      ls.filter (fun e => e.owner ≠ l.owner) :=
+  setList_filter_others ls l
+
+/-- … hence the number of entries of any other owner is unchanged. -/
+theorem count_other_owner_unchanged (ls : List Lock) (l : Lock) (o : Nat) (ho : o ≠ l.owner) :
+    (setList ls l).countP (fun e => e.owner = o) = ls.countP (fun e => e.owner = o) := by
+  have h := setList_filter_others ls l
+  have key : ∀ xs : List Lock, xs.countP (fun e => e.owner = o) =
+      (xs.filter (fun e => e.owner ≠ l.owner)).countP (fun e => e.owner = o) := by
+    intro xs
+    rw [List.countP_filter]
+    apply List.countP_congr
+    intro e _
+    simp only [decide_eq_true_eq, Bool.and_eq_true, ne_eq, decide_not, Bool.not_eq_eq_eq_not,
+      Bool.not_true, decide_eq_false_iff_not]
+    omega
+  rw [key (setList ls l), key ls, h]
+
+/-- … and the returned delta is exactly the change in the number of entries of
+the requesting owner (what `lockCount` accumulates). -/
+theorem delta_owner (ls : List Lock) (l : Lock) :
+    (set ls l).2 = ((setList ls l).countP (fun e => e.owner = l.owner) : Int) -
+      (ls.countP (fun e => e.owner = l.owner) : Int) := by
+  have h := congrArg List.length (setList_filter_others ls l)
+  have key : ∀ xs : List Lock, xs.length = xs.countP (fun e => e.owner = l.owner) +
+      (xs.filter (fun e => e.owner ≠ l.owner)).length := by
+    intro xs
+    rw [List.length_eq_countP_add_countP (fun e => decide (e.owner = l.owner)) (l := xs)]
+    congr 1
+    rw [List.countP_eq_length_filter]
+    congr 2
+    funext e
+    simp
+  have h1 := key (setList ls l)
+  have h2 := key ls
+  show ((setList ls l).length : Int) - (ls.length : Int) = _
+  omega
+
+/-- Over a whole history the sum of the deltas reported for owner `o`'s requests
+equals the change in the number of `o`'s entries; starting from the empty table
+`lockCount = 0 ↔ o has no entries`. -/
+theorem lock_count (o : Nat) (ls : List Lock) (reqs : List Req) :
+    deltaSum o ls reqs = ((run ls reqs).countP (fun e => e.owner = o) : Int) -
+      (ls.countP (fun e => e.owner = o) : Int) := by
+  induction reqs generalizing ls with
+  | nil => simp [deltaSum, run]
+  | cons r rs ih =>
+    simp only [deltaSum, run, ih]
+    by_cases happ : r.ty = .unlocked ∨ test ls r = none
+    · have happly : applyReq ls r = setList ls r := by
+        unfold applyReq
+        rcases happ with h | h
+        · rw [if_pos h]
+        · split <;> simp
+      rw [happly]
+      by_cases ho : r.owner = o
+      · subst ho
+        rw [if_pos rfl]
+        unfold stepDelta
+        rw [if_pos happ, delta_owner]
+        omega
+      · rw [if_neg ho, count_other_owner_unchanged ls r o (Ne.symm ho)]
+        omega
+    · have happly : applyReq ls r = ls := by
+        unfold applyReq
+        rw [if_neg (fun h => happ (Or.inl h)), if_neg (fun h => happ (Or.inr h))]
+      rw [happly]
+      unfold stepDelta
+      rw [if_neg happ]
+      split <;> omega
+
+/-! ## Mutual exclusion in every reachable table -/
+
+/-- One caller step preserves the invariant. -/
+theorem wf_applyReq (ls : List Lock) (r : Req) (hwf : WF ls) (hv : r.Valid) :
+    WF (applyReq ls r) := by
+  unfold applyReq
+  split
+  · rename_i h
+    exact wf_preserved ls r hwf hv (fun h' => absurd h h')
+  · split
+    · rename_i h
+      exact wf_preserved ls r hwf hv (fun _ => h)
+    · exact hwf
+
+/-- Every table reachable from a well-formed one by valid requests is well-formed. -/
+theorem wf_run (ls : List Lock) (reqs : List Req) (hwf : WF ls) (hv : ∀ r ∈ reqs, r.Valid) :
+    WF (run ls reqs) := by
+  induction reqs generalizing ls with
+  | nil => exact hwf
+  | cons r rs ih =>
+    exact ih (applyReq ls r) (wf_applyReq ls r hwf (hv r (by simp)))
+      (fun r' hr' => hv r' (by simp [hr']))
+
+/-- In a well-formed table no byte is held by two different owners unless both
+hold it shared. -/
+theorem wf_mutual_exclusion (ls : List Lock) (hwf : WF ls) (o₁ o₂ b : Nat) (t₁ t₂ : Ty)
+    (hne : o₁ ≠ o₂) (h₁ : abs ls o₁ b = some t₁) (h₂ : abs ls o₂ b = some t₂) :
+    t₁ = .shared ∧ t₂ = .shared := by
+  have hwf' := (wf_iff ls).1 hwf
+  obtain ⟨e₁, he₁, hc₁, ht₁⟩ := abs_some_mem h₁
+  obtain ⟨e₂, he₂, hc₂, ht₂⟩ := abs_some_mem h₂
+  have := cross_of_mem hwf'.2 he₁ he₂ (by rw [hc₁.1, hc₂.1]; exact hne) (by omega) (by omega)
+  rw [← ht₁, ← ht₂]
+  exact this
+
+/-- Mutual exclusion: after any history of (non-empty-range) requests starting
+from the empty table, where every lock request is applied only if `Test`
+returned no conflict, no byte is held by two different owners unless both hold
+it shared. -/
+theorem mutual_exclusion (reqs : List Req) (hv : ∀ r ∈ reqs, r.Valid)
+    (o₁ o₂ b : Nat) (t₁ t₂ : Ty) (hne : o₁ ≠ o₂)
+    (h₁ : abs (run [] reqs) o₁ b = some t₁) (h₂ : abs (run [] reqs) o₂ b = some t₂) :
+    t₁ = .shared ∧ t₂ = .shared :=
+  wf_mutual_exclusion _ (wf_run [] reqs wf_init hv) o₁ o₂ b t₁ t₂ hne h₁ h₂
+
+/-- A history with two denied lock requests (the 2nd and the 4th), overlapping
+shared locks of two owners, an own-lock split and a hole punched by an unlock. -/
+def exReqs : List Req :=
+  [⟨0, 10, 1, .shared⟩, ⟨5, 15, 2, .excl⟩, ⟨5, 15, 2, .shared⟩, ⟨3, 6, 1, .excl⟩,
+   ⟨0, 4, 1, .excl⟩, ⟨12, 13, 2, .unlocked⟩]
+
+example : (∀ r ∈ exReqs, r.Valid) ∧
+    run [] exReqs =
+      [⟨0, 4, 1, .excl⟩, ⟨4, 10, 1, .shared⟩, ⟨5, 12, 2, .shared⟩, ⟨13, 15, 2, .shared⟩] ∧
+    abs (run [] exReqs) 1 5 = some .shared ∧ abs (run [] exReqs) 2 5 = some .shared ∧
+    deltaSum 1 [] exReqs = 2 ∧ deltaSum 2 [] exReqs = 2 := by
+  decide
+
+/-! ## Unlocking everything (`UnlockAll`, CLOSE, lease expiry) -/
+
+/-- `Set(unlock o [0, M))` with every entry ending at or before `M` releases
+all of `o`'s bytes and changes nothing for any other owner.  (The Go caller uses
+`M = 2^64-1`; ranges never contain byte `2^64-1`.) -/
+theorem unlock_all (ls : List Lock) (o M : Nat) (hwf : WF ls) (hM : ∀ e ∈ ls, e.stop ≤ M) :
+    (∀ b, abs (setList ls ⟨0, M, o, .unlocked⟩) o b = none) ∧
+    (∀ o' b, o' ≠ o → abs (setList ls ⟨0, M, o, .unlocked⟩) o' b = abs ls o' b) := by
+  refine ⟨?_, fun o' b ho => set_pointwise_other ls _ o' b ho⟩
+  intro b
+  by_cases hM0 : 0 < M
+  · rw [set_pointwise ls _ hwf hM0 o b]
+    simp only [true_and, Nat.zero_le, if_true]
+    split
+    · rfl
+    · rename_i hb
+      rw [abs_eq_none_iff]
+      intro e he hc
+      have := hM e he
+      omega
+  · have : ls = [] := by
+      cases ls with
+      | nil => rfl
+      | cons e rest =>
+        have h1 := hM e (by simp)
+        have h2 := hwf.nonempty e (by simp)
+        omega
+    subst this
+    rfl
+
+/-- Entry-level form: the result is literally the table with `o`'s entries
+removed (so `o`'s `lockCount` drops to 0 and every other entry is untouched). -/
+theorem unlock_all_entries (ls : List Lock) (o M : Nat) (hwf : WF ls)
+    (hM : ∀ e ∈ ls, e.stop ≤ M) :
+    setList ls ⟨0, M, o, .unlocked⟩ = ls.filter (fun e => e.owner ≠ o) :=
+  setList_unlock_all ls o M (fun e he => ⟨hwf.nonempty e he, hM e he⟩)
+
+example : WF exLs ∧ (∀ e ∈ exLs, e.stop ≤ 2^64 - 1) ∧
+    setList exLs ⟨0, 2^64 - 1, 1, .unlocked⟩ = [⟨3, 8, 2, .shared⟩, ⟨20, 30, 2, .excl⟩] := by
+  decide
 
 end BbRe.Properties.C20
